@@ -49,6 +49,22 @@ impl Decimal {
             .expect("Decimal::lcm: result does not fit in u32")
     }
 
+    /// The smallest positive integer that is a multiple of this decimal
+    /// (coef / gcd(coef, 10^exp)); every integer multiple is a multiple of it.
+    pub fn integer_step(&self) -> u32 {
+        let mut c = self.coef;
+        let (mut twos, mut fives) = (self.exp, self.exp);
+        while twos > 0 && c.is_multiple_of(2) {
+            c /= 2;
+            twos -= 1;
+        }
+        while fives > 0 && c.is_multiple_of(5) {
+            c /= 5;
+            fives -= 1;
+        }
+        c
+    }
+
     pub fn to_f64(&self) -> f64 {
         self.coef as f64 / 10.0f64.powi(self.exp as i32)
     }
@@ -605,7 +621,12 @@ pub fn check_number_bounds(num: &NumberSchema) -> Result<(), String> {
         }
         // If interval is not unbounded in at least one direction, check if the range contains a multiple of multipleOf
         if let (Some(min), Some(max)) = (minimum, maximum) {
-            let step = d.to_f64();
+            // an integer that is a multiple of e.g. 0.75 is a multiple of 3
+            let step = if num.integer {
+                d.integer_step() as f64
+            } else {
+                d.to_f64()
+            };
             // Adjust the range depending on whether it's exclusive or not
             let min = {
                 let first_num_ge_min = (min / step).ceil() * step;
